@@ -174,12 +174,12 @@ Theorem C03_include_state_is_fresh :
     nth_error ch pc = Some (Include name) -> assoc_get (w_templates wd) name = Some t2 ->
     run W wr wd (S f) tpl ae depth ch pc s o
     = match caps s with
-      | [] => match run W wr wd f t2 ae depth (t_chunk t2) 0 (inc_state (scope_of s) (context s)) o with
+      | [] => match run W wr wd f t2 ae depth (t_root_chunk t2) 0 (inc_state (scope_of s) (context s)) o with
               | RDone _ o1 => run W wr wd f tpl ae depth ch (S pc) s o1
               | RFail e => RFail e
               | ROutOfFuel => ROutOfFuel
               end
-      | c :: ct => match run W wr wd f t2 ae depth (t_chunk t2) 0 (inc_state (scope_of s) (context s)) (SinkBuf c) with
+      | c :: ct => match run W wr wd f t2 ae depth (t_root_chunk t2) 0 (inc_state (scope_of s) (context s)) (SinkBuf c) with
                    | RDone _ (SinkBuf c1) => run W wr wd f tpl ae depth ch (S pc) (upd_caps s (c1 :: ct)) o
                    | RDone _ (SinkTop _) => RFail ErrPanic
                    | RFail e => RFail e
